@@ -291,10 +291,12 @@ func refIsOr(op string) bool  { return refCanon(op) == "or" }
 // (the engine's eq/ne use it; lists and sets are not comparable).
 func refComparable(v Value) bool {
 	switch v.(type) {
-	case nil, bool, int64, string, dne, int:
+	case nil, bool, int64, string, int:
 		return true
+	case []int64, []string, map[int64]struct{}, map[string]struct{}:
+		return false
 	}
-	return false
+	return v == Value(DNE) // the DNE sentinel is comparable
 }
 
 // refOp applies a scalar built-in operator. known=false means the reference
